@@ -470,6 +470,38 @@ func runProperty(w *World, res *checkResult, thorough bool, timeoutMs int) {
 			}
 		}
 	}
+	if p == "C08" || p == "C12" || p == "C19" {
+		// deadlock freedom of the module's own mutexes: no cycle in "may be acquired while ... may be held" (classes =
+		// struct type + mutex field; calls through interfaces resolved to the module's implementations), and no class
+		// re-acquired while it may already be held
+		lo := runLockOrder(w)
+		o := &Obligation{Name: "lockorder:acyclic", Fn: "lockorder", Kind: "lockorder", Tags: []string{p}, Goal: "true", Status: "trivial",
+			Src: fmt.Sprintf("the lock order of the module's mutexes is acyclic (%d ordered pairs of mutex classes)", func() int { n := 0; for _, m := range lo.edges { n += len(m) }; return n }())}
+		if cyc := lo.cycles(); len(cyc) > 0 {
+			o.Status, o.Solver, o.Goal = "sat", "syntactic", "false"
+			var parts []string
+			for _, c := range cyc {
+				var ws []string
+				for i := range c {
+					ws = append(ws, lo.edges[c[i]][c[(i+1)%len(c)]])
+				}
+				parts = append(parts, strings.Join(c, " -> ")+" -> "+c[0]+": "+strings.Join(ws, "; "))
+			}
+			o.Output = strings.Join(parts, " | ")
+		}
+		all = append(all, o)
+		o2 := &Obligation{Name: "lockorder:no-reacquire", Fn: "lockorder", Kind: "lockorder", Tags: []string{p}, Goal: "true", Status: "trivial", Src: "no mutex class is acquired while a mutex of the same class may be held (sync.Mutex is not reentrant)"}
+		if len(lo.selfs) > 0 {
+			o2.Status, o2.Solver, o2.Goal = "sat", "syntactic", "false"
+			var parts []string
+			for _, wit := range lo.selfs {
+				parts = append(parts, wit)
+			}
+			sort.Strings(parts)
+			o2.Output = strings.Join(parts, " | ")
+		}
+		all = append(all, o2)
+	}
 	if p == "C14" {
 		// the yes/no answer of an expired timer is atomic with arming and stopping only because the running mark,
 		// the timer type and the installed stop channel are accessed under the timer mutex: those lock-discipline
